@@ -20,6 +20,7 @@ specs/TraceDnsRewrite.tla.  Statement: notes/G02.md.
 import json
 import os
 import random
+import re
 import threading
 
 import vlib
@@ -83,7 +84,12 @@ def run_shard(ctx, vectors, idx, results, test="TestZZVerifG02Replay", pkg=FPKG,
 
 
 def replay_filter(ctx, cfgs, shards):
-    parts = [cfgs[i::shards] for i in range(shards)]
+    # Seeded order; blocks of one family keep the reconfigurations of a live filter small
+    # and frequent (the harness streams the vectors in this order).
+    order = list(cfgs)
+    random.Random(ctx.seed).shuffle(order)
+    order.sort(key=lambda v: v["fam"])
+    parts = [order[i::shards] for i in range(shards)]
     results = [None] * shards
     ths = [threading.Thread(target=run_shard, args=(ctx, parts[i], i, results)) for i in range(shards)]
     for t in ths:
@@ -112,17 +118,88 @@ def strip_trace(rows):
     return out
 
 
-def validate_trace(ctx, rows, name):
+def validate_trace(ctx, rows, name, cfg="TraceDnsRewrite.cfg"):
+    """cfg: concurrent validations use differently named (identical) configuration files,
+    because vlib names the scratch directory of a TLC run after module and configuration."""
     p = ctx.path(name)
     vlib.write_ndjson(p, strip_trace(rows))
-    r = ctx.tlc("TraceDnsRewrite", "TraceDnsRewrite.cfg", workers=1, extra_files=[(p, "trace.ndjson")], timeout=900,
-                heap="3g")
+    r = ctx.tlc("TraceDnsRewrite", cfg, workers=1, extra_files=[(p, "trace.ndjson")], timeout=900, heap="3g")
     if not r["vectors"]:
         raise vlib.Inconclusive("trace spec produced no verdict")
     verdict = r["vectors"][-1]
     if verdict["n"] != len(rows):
         raise vlib.Inconclusive("trace spec consumed %s of %d lines" % (verdict["n"], len(rows)))
     return verdict["bad"], set(verdict["kf"])
+
+
+def pipe_class(r):
+    """Class of a pipeline observation (for the vacuity check of the pipeline strand)."""
+    o = r["obs"]
+    if o["cname"]:
+        return "cname-" + r["m"] if o["ask"] else "cname-local"
+    if o["ask"]:
+        return "forwarded-" + r["m"]
+    if o["rcode"] in ("NXDOMAIN", "REFUSED", "SERVFAIL"):
+        return "local-" + o["rcode"].lower()
+    if r["q"]["qt"] == "PTR" and o["vals"]:
+        return "local-ptr"
+    return "local-records" if o["vals"] else "local-empty"
+
+
+def run_pipe(ctx, test, name, env, vectors=None):
+    """Run a pipeline driver; returns its trace rows (summary removed) and the summary."""
+    e = {"GOMAXPROCS": "2"}
+    e.update(env)
+    vout = ctx.path(name + "_out.ndjson")
+    e["VERIF_OUT"] = vout
+    if vectors is not None:
+        vin = ctx.path(name + "_in.ndjson")
+        vlib.write_ndjson(vin, vectors)
+        e["VERIF_IN"] = vin
+    rc, out = ctx.go_test(DPKG, FILES, "^%s$|^zz%s$" % (test, name), env=e, timeout=1200)
+    rows = vlib.read_ndjson(vout)
+    summ = [r for r in rows if r.get("k") == "summary"]
+    if rc != 0 or not summ:
+        raise vlib.Inconclusive("G02 %s (%s) did not complete:\n%s" % (test, name, out[-3000:]))
+    return [r for r in rows if r.get("k") != "summary"], summ[0]
+
+
+def same_obs(a, b):
+    norm = lambda o: json.dumps({k: (sorted(v) if k == "vals" else v) for k, v in o.items() if k != "up"}, sort_keys=True)  # noqa: E731
+    return norm(a) == norm(b)
+
+
+def pipe_reexec(ctx, rows, bad, kf, name):
+    """Re-execute rejected pipeline lines alone (fresh server, same spelling, same upstream
+    behaviour) and validate them again; returns records of the ones rejected again."""
+    recs = []
+    for i in bad[:150]:
+        line, c = rows[i - 1], cfg_before(rows, i)
+        recs.append({"cfg": c["cfg"], "q": line["q"], "salt": c["salt"], "epoch": c["epoch"], "text": c.get("text"),
+                     "line": i, "got": line["obs"], "m": line["m"], "kf": i in kf, "lvl": "pipe"})
+    pin, pout = ctx.path(name + "_probe_in.ndjson"), ctx.path(name + "_probe_out.ndjson")
+    vlib.write_ndjson(pin, recs)
+    rc, out = ctx.go_test(DPKG, FILES, "^TestZZVerifG02PipeProbe$|^zz%s$" % name, env={
+        "VERIF_IN": pin, "VERIF_OUT": pout, "GOMAXPROCS": "2"}, timeout=900)
+    prows = vlib.read_ndjson(pout)
+    if rc != 0 or len(prows) != len(recs):
+        raise vlib.Inconclusive("G02 pipeline probe did not complete:\n" + out[-2000:])
+    again = []
+    for rec, pr in zip(recs, prows):
+        again.append({"k": "cfg", "cfg": rec["cfg"]})
+        again.append({"k": "p", "q": rec["q"], "m": pr["m"], "obs": pr["obs"]})
+    bad2, kf2 = validate_trace(ctx, again, name + "_probe_tlc.ndjson", cfg="TraceDnsRewrite.%s.cfg" % ("pprobe" if name == "g02_pipe" else "probe"))
+    out_recs = []
+    for j in bad2:
+        k = (j - 1) // 2
+        rec = recs[k]
+        rec["got2"] = again[j - 1]["obs"]
+        # reproduced = the very same observation twice more, each time alone on a fresh server
+        if not (same_obs(rec["got"], prows[k]["obs"]) and same_obs(rec["got"], prows[k]["obs2"])):
+            continue
+        rec["kf"] = rec["kf"] and j in kf2
+        out_recs.append(rec)
+    return out_recs, len(recs) - len(out_recs)
 
 
 def cfg_before(rows, i):
@@ -135,8 +212,29 @@ def cfg_before(rows, i):
 
 def run(ctx):
     rng = random.Random(ctx.seed)
-    cfgname = "DnsRewrite.quick.cfg" if ctx.quick else "DnsRewrite.full.cfg"
-    gen = ctx.tlc("DnsRewrite", cfgname, workers=6, timeout=900, heap="6g")
+    covres = {}
+    if ctx.quick:
+        gen = ctx.tlc("DnsRewrite", "DnsRewrite.quick.cfg", workers=6, timeout=900, heap="6g", coverage=True)
+        covres["out"] = gen["out"]
+        covth = None
+    else:
+        # the action-coverage run (vacuity) uses the reduced universe, next to the full enumeration
+        def cov_run():
+            try:
+                covres["out"] = ctx.tlc("DnsRewrite", "DnsRewrite.cov.cfg", workers=3, timeout=900, heap="4g", coverage=True)["out"]
+            except Exception as ex:  # noqa: BLE001
+                covres["err"] = ex
+        covth = threading.Thread(target=cov_run)
+        covth.start()
+        gen = ctx.tlc("DnsRewrite", "DnsRewrite.full.cfg", workers=6, timeout=900, heap="6g")
+        covth.join()
+        if "err" in covres:
+            raise covres["err"] if isinstance(covres["err"], vlib.Inconclusive) else vlib.Inconclusive(str(covres["err"]))
+    taken = {m.group(1): int(m.group(2)) for m in re.finditer(
+        r"^<(\w+) line \d+, col \d+ to line \d+, col \d+ of module DnsRewrite>: (\d+):\d+$", covres["out"], re.M)}
+    never = [a for a in ("Root", "MidComb", "MidMod", "MidPrec", "MidHosts", "MidHist") if not taken.get(a)]
+    if never:
+        raise vlib.Inconclusive("vacuous: action never taken: %s (coverage %s)" % (", ".join(never), taken))
     vectors = gen["vectors"]
     for i, v in enumerate(vectors):
         v["id"] = i
@@ -185,6 +283,34 @@ def run(ctx):
         except vlib.Inconclusive as ex:
             parts["ftrace"] = ex
 
+    def part_pipe():
+        # a seeded stratified sample of the enumerated configurations through the real server
+        order = list(cfgs)
+        random.Random(ctx.seed + 1).shuffle(order)
+        order.sort(key=lambda v: v["fam"])
+        step = 3 if ctx.quick else 7
+        sel = order[ctx.seed % step::step]
+        nsh = 2 if ctx.quick else 4
+        res = [None] * nsh
+
+        def one(k):
+            try:
+                rows, summ = run_pipe(ctx, "TestZZVerifG02Pipeline", "g02_pipe%d" % k, {}, vectors=sel[k::nsh])
+                res[k] = (rows, summ, validate_trace(ctx, rows, "g02_pipe%d_tlc.ndjson" % k, cfg="TraceDnsRewrite.pipe%d.cfg" % k))
+            except Exception as ex:  # noqa: BLE001
+                res[k] = ex
+        tt = [threading.Thread(target=one, args=(k,)) for k in range(nsh)]
+        for t in tt:
+            t.start()
+        for t in tt:
+            t.join()
+        parts["pipe"] = res
+
+    def part_ptrace():
+        rows, summ = run_pipe(ctx, "TestZZVerifG02PipeTrace", "g02_ptrace",
+                              {"VERIF_G02_TRACE_CFGS": "250" if ctx.quick else "1500"})
+        parts["ptrace"] = (rows, summ, validate_trace(ctx, rows, "g02_ptrace_tlc.ndjson", cfg="TraceDnsRewrite.ptrace.cfg"))
+
     def guarded(f, name):
         def g():
             try:
@@ -194,20 +320,31 @@ def run(ctx):
         return g
 
     ths = [threading.Thread(target=guarded(f, n)) for f, n in
-           ((part_filter, "filter"), (part_hist, "hist"), (part_ftrace, "ftrace"))]
+           ((part_filter, "filter"), (part_hist, "hist"), (part_ftrace, "ftrace"), (part_pipe, "pipe"),
+            (part_ptrace, "ptrace"))]
     for t in ths:
         t.start()
     for t in ths:
         t.join()
-    for n, ex in th_results.items():
-        raise ex if isinstance(ex, vlib.Inconclusive) else vlib.Inconclusive("%s: %r" % (n, ex))
-    for n in ("hist", "ftrace"):
-        if isinstance(parts.get(n), Exception):
-            raise parts[n]
+    # A strand that did not complete makes the run INCONCLUSIVE -- but only after the strands
+    # that did complete have been looked at: a reproduced disagreement is reported in any case.
+    deferred = []
 
-    frows, fsumms = parts["filter"]
-    hrows, hsumm = parts["hist"]
-    trows, (tbad, tkf) = parts["ftrace"]
+    def defer(ex, what):
+        deferred.append(ex if isinstance(ex, vlib.Inconclusive) else vlib.Inconclusive("%s: %r" % (what, ex)))
+
+    for n, ex in th_results.items():
+        defer(ex, n)
+        parts.pop(n, None)
+    for n in ("filter", "hist", "ftrace", "ptrace"):
+        if isinstance(parts.get(n), Exception):
+            defer(parts.pop(n), n)
+        elif n not in parts and n not in th_results:
+            defer(vlib.Inconclusive("strand %s produced nothing" % n), n)
+
+    frows, fsumms = parts.get("filter", ([], []))
+    hrows, hsumm = parts.get("hist", ([], {"n": 0, "calls": 0, "stats": {}, "covered": 0, "edges": 0, "states": 0}))
+    trows, (tbad, tkf) = parts.get("ftrace", ([], ([], set())))
 
     flaky = 0
     known = 0
@@ -226,32 +363,87 @@ def run(ctx):
     # trace lines rejected by TLC are re-executed alone (fresh filter, the same spelling)
     trace_reexec = 0
     if tbad:
-        recs = []
-        for i in tbad[:200]:
-            line, c = trows[i - 1], cfg_before(trows, i)
-            recs.append({"kind": "cand", "id": i, "fam": "trace", "cfg": c["cfg"], "text": c.get("text"), "q": line["q"],
-                         "got": line["out"], "want": [], "kf": i in tkf, "salt": c.get("salt", "")})
-        pin, pout = ctx.path("g02_probe_in.ndjson"), ctx.path("g02_probe_out.ndjson")
-        vlib.write_ndjson(pin, recs)
-        rc, out = ctx.go_test(FPKG, FILES, "^TestZZVerifG02Probe$", env={"VERIF_IN": pin, "VERIF_OUT": pout, "GOMAXPROCS": "1"})
-        prows = vlib.read_ndjson(pout)
-        if rc != 0 or len(prows) != len(recs):
-            raise vlib.Inconclusive("G02 probe did not complete:\n" + out[-2000:])
-        # the re-executed outcomes go through the trace spec once more
-        again = []
-        for rec, pr in zip(recs, prows):
-            again.append({"k": "cfg", "cfg": rec["cfg"]})
-            again.append({"k": "q", "q": rec["q"], "out": pr["got"]})
-        bad2, kf2 = validate_trace(ctx, again, "g02_probe_tlc.ndjson")
-        for j in bad2:
-            rec = recs[(j - 1) // 2]
-            rec["got2"] = again[j - 1]["out"]
-            rec["lvl"] = "trace"
-            rec["kf"] = rec["kf"] and j in kf2
-            trace_reexec += 1
-            known += "known" == report(ctx, rec, "trace line %d rejected by TraceDnsRewrite and again when re-executed alone: %s %s -> %s; rules %s" % (
-                rec["id"], ".".join(rec["q"]["host"]), rec["q"]["qt"], json.dumps(rec["got2"]), json.dumps((rec.get("text") or {}).get("custom"))))
-        flaky += len(recs) - len(bad2)
+        try:
+            recs = []
+            for i in tbad[:200]:
+                line, c = trows[i - 1], cfg_before(trows, i)
+                recs.append({"kind": "cand", "id": i, "fam": "trace", "cfg": c["cfg"], "text": c.get("text"), "q": line["q"],
+                             "got": line["out"], "want": [], "kf": i in tkf, "salt": c.get("salt", "")})
+            pin, pout = ctx.path("g02_probe_in.ndjson"), ctx.path("g02_probe_out.ndjson")
+            vlib.write_ndjson(pin, recs)
+            rc, out = ctx.go_test(FPKG, FILES, "^TestZZVerifG02Probe$", env={"VERIF_IN": pin, "VERIF_OUT": pout, "GOMAXPROCS": "1"})
+            prows = vlib.read_ndjson(pout)
+            if rc != 0 or len(prows) != len(recs):
+                raise vlib.Inconclusive("G02 probe did not complete:\n" + out[-2000:])
+            # the re-executed outcomes go through the trace spec once more
+            again = []
+            for rec, pr in zip(recs, prows):
+                again.append({"k": "cfg", "cfg": rec["cfg"]})
+                again.append({"k": "q", "q": rec["q"], "out": pr["got"]})
+            bad2, kf2 = validate_trace(ctx, again, "g02_probe_tlc.ndjson")
+            nrep = 0
+            for j in bad2:
+                rec = recs[(j - 1) // 2]
+                rec["got2"] = again[j - 1]["out"]
+                if not same_obs(rec["got"], rec["got2"]):
+                    continue
+                nrep += 1
+                rec["lvl"] = "trace"
+                rec["kf"] = rec["kf"] and j in kf2
+                trace_reexec += 1
+                known += "known" == report(ctx, rec, "trace line %d rejected by TraceDnsRewrite and again when re-executed alone: %s %s -> %s; rules %s hosts %s" % (
+                    rec["id"], ".".join(rec["q"]["host"]), rec["q"]["qt"], json.dumps(rec["got2"]),
+                    json.dumps((rec.get("text") or {}).get("custom")), json.dumps((rec.get("text") or {}).get("hosts"))))
+            flaky += len(recs) - nrep
+        except vlib.Inconclusive as ex:
+            defer(ex, "trace re-execution")
+
+    # ---------------------------------------------------------------- pipeline level
+    pipe_lines = pipe_cfgs = pipe_rej = pipe_repro = 0
+    pclasses = {}
+    pstats = {}
+    strands = []
+    for k, r in enumerate(parts.get("pipe") or []):
+        if isinstance(r, Exception):
+            defer(r, "pipeline shard %d" % k)
+        elif r is not None:
+            strands.append(("g02_pipe", r))
+    if "ptrace" in parts:
+        strands.append(("g02_ptrace", parts["ptrace"]))
+    psample = None
+    for name, (rows, summ, (pbad, pkf)) in strands:
+        pipe_cfgs += summ["n"]
+        for kk, vv in summ["stats"].items():
+            pstats[kk] = pstats.get(kk, 0) + vv
+        for r in rows:
+            if r["k"] == "p":
+                pipe_lines += 1
+                c = pipe_class(r)
+                pclasses[c] = pclasses.get(c, 0) + 1
+                psample = psample or r
+        pipe_rej += len(pbad)
+        if pbad:
+            try:
+                recs, unrep = pipe_reexec(ctx, rows, pbad, pkf, name)
+            except vlib.Inconclusive as ex:
+                defer(ex, "pipeline re-execution")
+                continue
+            flaky += unrep
+            for rec in recs:
+                pipe_repro += 1
+                known += "known" == report(ctx, rec, "pipeline: %s %s observed %s (upstream behaviour %s), rejected by TraceDnsRewrite and again when "
+                                           "re-executed alone on a fresh server; rules %s hosts %s" % (
+                                               ".".join(rec["q"]["host"]), rec["q"]["qt"], json.dumps(rec["got2"]), rec["m"],
+                                               json.dumps((rec.get("text") or {}).get("custom")), json.dumps((rec.get("text") or {}).get("hosts"))))
+
+    if deferred:
+        raise deferred[0]
+
+    pneed = ["cname-answer", "cname-nodata", "cname-nxdomain", "cname-servfail", "forwarded-answer", "forwarded-nxdomain",
+             "local-nxdomain", "local-refused", "local-records", "local-empty", "local-ptr"]
+    pmiss = [c for c in pneed if not pclasses.get(c)]
+    if pmiss:
+        raise vlib.Inconclusive("pipeline strand never observed: %s" % ", ".join(pmiss))
 
     ncfg = sum(s["n"] for s in fsumms)
     calls = sum(s["stats"].get("calls", 0) for s in fsumms) + hsumm.get("calls", 0)
@@ -265,6 +457,10 @@ def run(ctx):
         raise vlib.Inconclusive("reconfiguration machine: %d of %d edges walked" % (hsumm["covered"], hsumm["edges"]))
     if flaky > 20:
         raise vlib.Inconclusive("too many unreproduced disagreements: %d" % flaky)
+    if stats.get("hosts_not_refreshed") or pstats.get("hosts_not_refreshed") or pstats.get("no_reply"):
+        if not ctx.violations:
+            raise vlib.Inconclusive("hosts container not refreshed in time %s times, %s questions without a reply" % (
+                stats.get("hosts_not_refreshed", 0) + pstats.get("hosts_not_refreshed", 0), pstats.get("no_reply", 0)))
 
     classes = {}
     nontrivial = 0
@@ -288,23 +484,26 @@ def run(ctx):
 
     sample = lambda v: {"fam": v["fam"], "cfg": v["cfg"], "verdicts": v["vd"][:2]}  # noqa: E731
     cov = {
-        "traces_validated_against_impl": ncfg + hsumm["n"] + len(tq),
+        "traces_validated_against_impl": ncfg + hsumm["n"] + len(tq) + pipe_lines,
         "configurations_generated": len(cfgs), "configurations_replayed": ncfg,
-        "evaluations": calls + len(tq),
+        "evaluations": calls + len(tq) + pipe_lines,
         "distinct_nontrivial": nontrivial,
         "rule": "one vector per configuration (rules, hosts file, hosts_file_enabled, legacy table, switches) with the "
                 "admissible outcomes of every question of its family; non-trivial = some question is rewritten, blocked "
                 "or allowed; every question is asked through the real CheckHost on live, reconfigured filters",
         "outcome_classes_in_vectors": classes, "outcome_classes_in_trace": tclasses,
         "clause_witnesses": {c: wit.get(c, 0) for c in CLAUSES + ["SkipDiffers"]},
+        "actions_taken": taken,
         "machine": {"states": hsumm["states"], "edges": hsumm["edges"], "edges_walked": hsumm["covered"], "steps": hsumm["n"]},
         "live_reconfigurations": {k: v for k, v in stats.items() if k.startswith("live_")},
         "fresh_filters": stats.get("fresh_filters", 0),
         "trace_lines": len(trows), "trace_questions": len(tq), "trace_lines_rejected": len(tbad),
         "trace_rejections_reproduced": trace_reexec,
+        "pipeline": {"configurations": pipe_cfgs, "udp_questions_validated_by_tlc": pipe_lines, "classes": pclasses,
+                     "lines_rejected": pipe_rej, "rejections_reproduced": pipe_repro, "reconfigurations": pstats},
         "known_finding_observations": known, "flaky": flaky,
         "exhaustive": not ctx.quick,
-        "samples": [sample(cfgs[0]), sample(cfgs[len(cfgs) // 2]), sample(cfgs[-1]), {"trace_line": tq[0]}],
+        "samples": [sample(cfgs[0]), sample(cfgs[len(cfgs) // 2]), sample(cfgs[-1]), {"trace_line": tq[0]}, {"pipeline_line": psample}],
     }
     return ctx.finish("model_checking", cov, assumptions=[
         "TLC; conc()/abs() of zz_verif_g02_test.go (label dictionary, address tokens, fixed texts of the structured values)",
@@ -315,14 +514,33 @@ def run(ctx):
 
 
 def replay(ctx, path):
+    """Re-run one stored disagreement against the current tree: the question is asked alone on a
+    fresh filter (fresh server for pipeline records) and TraceDnsRewrite.tla decides."""
     rec = json.load(open(path))["record"]
-    pin, pout = ctx.path("g02_probe_in.ndjson"), ctx.path("g02_probe_out.ndjson")
-    vlib.write_ndjson(pin, [rec])
-    rc, out = ctx.go_test(FPKG, FILES, "^TestZZVerifG02Probe$", env={"VERIF_IN": pin, "VERIF_OUT": pout, "GOMAXPROCS": "1"})
-    rows = vlib.read_ndjson(pout)
-    if rc != 0 or not rows:
-        raise vlib.Inconclusive("G02 probe did not complete:\n" + out[-2000:])
-    pr = rows[0]
-    print(json.dumps({"rules": pr["text"], "question": rec["q"], "expected": rec.get("want"), "observed": pr["got"],
-                      "admissible": pr["admissible"]}, indent=1))
-    return 0 if pr["admissible"] else 1
+    if rec.get("lvl") == "pipe":
+        pin, pout = ctx.path("g02_rp_in.ndjson"), ctx.path("g02_rp_out.ndjson")
+        vlib.write_ndjson(pin, [{"cfg": rec["cfg"], "q": rec["q"], "salt": rec["salt"], "epoch": rec["epoch"]}])
+        rc, out = ctx.go_test(DPKG, FILES, "^TestZZVerifG02PipeProbe$", env={"VERIF_IN": pin, "VERIF_OUT": pout, "GOMAXPROCS": "2"})
+        rows = vlib.read_ndjson(pout)
+        if rc != 0 or not rows:
+            raise vlib.Inconclusive("G02 pipeline probe did not complete:\n" + out[-2000:])
+        line = {"k": "p", "q": rec["q"], "m": rows[0]["m"], "obs": rows[0]["obs"]}
+        observed = rows[0]["obs"]
+    else:
+        r2 = dict(rec)
+        r2.setdefault("want", [])
+        r2["text"] = None
+        r2 = {k: v for k, v in r2.items() if k in ("kind", "id", "fam", "cfg", "q", "got", "want", "kf", "via", "salt")}
+        r2["id"] = r2.get("id") or 0
+        pin, pout = ctx.path("g02_rp_in.ndjson"), ctx.path("g02_rp_out.ndjson")
+        vlib.write_ndjson(pin, [r2])
+        rc, out = ctx.go_test(FPKG, FILES, "^TestZZVerifG02Probe$", env={"VERIF_IN": pin, "VERIF_OUT": pout, "GOMAXPROCS": "1"})
+        rows = vlib.read_ndjson(pout)
+        if rc != 0 or not rows:
+            raise vlib.Inconclusive("G02 probe did not complete:\n" + out[-2000:])
+        line = {"k": "q", "q": rec["q"], "out": rows[0]["got"]}
+        observed = rows[0]["got"]
+    bad, kf = validate_trace(ctx, [{"k": "cfg", "cfg": rec["cfg"]}, line], "g02_rp_tlc.ndjson", cfg="TraceDnsRewrite.probe.cfg")
+    print(json.dumps({"rules": rows[0].get("text"), "question": rec["q"], "expected": rec.get("want") or "decided by TraceDnsRewrite.tla",
+                      "observed": observed, "admissible": not bad, "explained_by_known_finding": bool(bad) and 2 in kf}, indent=1))
+    return 1 if bad else 0
